@@ -283,6 +283,39 @@ func boundaryPrograms() []string {
 	return out
 }
 
+// negativePrograms: statements the compiler must reject (return outside a function, break/continue outside a
+// loop, tuple assignment, ':=' with a selector, export outside a module …) in every kind of enclosing block.
+// Each program either fails to compile (the normal case) or compiles — then its functions must verify like any
+// other: a guard that is slightly too weak shows up as ill-formed bytecode.
+func negativePrograms() []string {
+	stmts := []string{
+		"return", "return 1", "return a", "break", "continue",
+		"a = 1, 2", "a, b = 1, 2", "a, b := 1, 2", "a, b = b, a", "a = b, 1", "a += 1, 2", "c, d := 1",
+		"a.x := 1", "a[0] := 1", "export 1", "export a",
+		"x := x", "undefinedName = 1", "f()()", "1 = a", "a++ ++",
+	}
+	wrap := []func(string) string{
+		func(x string) string { return x },
+		func(x string) string { return "if true {\n" + x + "\n}" },
+		func(x string) string { return "if false {\n} else {\n" + x + "\n}" },
+		func(x string) string { return "for i := 0; i < 1; i++ {\n" + x + "\n}" },
+		func(x string) string { return "for x in [1] {\n" + x + "\n}" },
+		func(x string) string { return "for {\nif true {\n" + x + "\n}\nbreak\n}" },
+		func(x string) string { return "f := func() {\n" + x + "\n}\nf()" },
+		func(x string) string { return "f := func() {\nif true {\n" + x + "\n}\n}\nf()" },
+		func(x string) string { return "for {\nf := func() {\n" + x + "\n}\nf()\nbreak\n}" },
+		func(x string) string { return "f := func() {\nfor {\ng := func() {\n" + x + "\n}\ng()\nbreak\n}\n}\nf()" },
+		func(x string) string { return "if true {\nif true {\n" + x + "\n}\n}" },
+	}
+	var out []string
+	for _, st := range stmts {
+		for _, w := range wrap {
+			out = append(out, "a := 0\nb := 0\n"+w(st)+"\nz := a\n")
+		}
+	}
+	return out
+}
+
 func main() {
 	f := lib.ParseFlags()
 	res = lib.NewResult("C02", f)
@@ -307,6 +340,10 @@ func main() {
 	for _, src := range boundaryPrograms() {
 		res.Dist("boundary-programs")
 		checkProgram(src, true)
+	}
+	for _, src := range negativePrograms() {
+		res.Dist("negative-programs")
+		checkProgram(src, false)
 	}
 	rng := lib.NewRNG(f.Seed)
 	n := f.Scale(1200, 50000)
